@@ -2677,26 +2677,36 @@ func lineCompleteThroughHelper(c *Ctx, fn *ssa.Function, b *ssa.BasicBlock, si i
 	}
 	call, ok := bo.X.(*ssa.Call)
 	if !ok {
-		return 0, false
+		// `n := f(...); for n < 0 { ...; n = f(...) }`: a phi of calls of one helper with the same kinds of argument
+		ph, isPhi := bo.X.(*ssa.Phi)
+		if !isPhi || len(ph.Edges) == 0 {
+			return 0, false
+		}
+		for _, e := range ph.Edges {
+			ce, isCall := e.(*ssa.Call)
+			if !isCall {
+				return 0, false
+			}
+			if call == nil {
+				call = ce
+				continue
+			}
+			if ce.Call.StaticCallee() != call.Call.StaticCallee() || len(ce.Call.Args) != len(call.Call.Args) {
+				return 0, false
+			}
+			b1, e1, t1 := lineHelperBindings(call)
+			b2, e2, t2 := lineHelperBindings(ce)
+			if b1 != b2 || e1 != e2 || t1 != t2 {
+				return 0, false
+			}
+		}
 	}
 	g := call.Call.StaticCallee()
 	if g == nil || g.Blocks == nil || !c.P.InModule(g) {
 		return 0, false
 	}
 	// parameter bindings
-	bufParam, eofParam := -1, -1
-	eofTrueMeansEOF := true
-	for ai, a := range call.Call.Args {
-		if _, isBuf := isLoadOfField(a, "BlockParser", "buf"); isBuf {
-			bufParam = ai
-		}
-		if x, nilIdx, isNil := nilTest(a); isNil {
-			if _, isErr := isLoadOfField(x, "BlockParser", "err"); isErr {
-				eofParam = ai
-				eofTrueMeansEOF = nilIdx == 1 // argument true when err is non-nil
-			}
-		}
-	}
+	bufParam, eofParam, eofTrueMeansEOF := lineHelperBindings(call)
 	count := 0
 	for ri, r := range returnsOf(g) {
 		if len(r.Results) != 1 {
@@ -2850,4 +2860,21 @@ func strictlyBelowLen(iff *ssa.If, gi int, isLen func(ssa.Value) bool) (int64, b
 		m--
 	}
 	return m, true
+}
+
+// lineHelperBindings: which argument of a line-end helper is the parser's buffer and which is `p.err != nil` (or == nil).
+func lineHelperBindings(call *ssa.Call) (bufParam, eofParam int, eofTrueMeansEOF bool) {
+	bufParam, eofParam, eofTrueMeansEOF = -1, -1, true
+	for ai, a := range call.Call.Args {
+		if _, isBuf := isLoadOfField(a, "BlockParser", "buf"); isBuf {
+			bufParam = ai
+		}
+		if x, nilIdx, isNil := nilTest(a); isNil {
+			if _, isErr := isLoadOfField(x, "BlockParser", "err"); isErr {
+				eofParam = ai
+				eofTrueMeansEOF = nilIdx == 1 // argument true when err is non-nil
+			}
+		}
+	}
+	return
 }
